@@ -263,7 +263,8 @@ def run_one(seed, preset=None, tier="quick", want_case=False):
     r["probes"] = {"refused_subscription": int(any(s.refused for s in subs)), "empty_stream": int(any(not s.refused and not s.events for s in subs)),
                    "event_with_errors": int(any(plan.errors for s in subs for _, plan in s.events)),
                    "event_nulls_whole_data": int(any(plan.data is None and not plan.refused for s in subs for _, plan in s.events)),
-                   "two_streams_interleaved": int(overlap >= 2)}
+                   "two_streams_interleaved": int(overlap >= 2),
+                   "subscription_root_repeated": int(any(getattr(s.doc, "probes", {}).get("subscription_root_repeated") for s in subs))}
     if want_case or viol:
         r["case"] = {"sdl": sdl, "engine_config": cfg, "scheduler": sch,
                      "subscriptions": [{"query": s.text, "operation_name": s.op_name, "variables": s.variables, "refused": s.refused,
